@@ -10,6 +10,7 @@ CONSTANTS
   PingReaderCtx = "ping"
   PingErrSend = "select"
   PingUnrMax = 2
+  DeliveryHoldsRLock = FALSE
   KF_HalfCloseOnly = FALSE
 INVARIANTS
   TypeOK
@@ -18,4 +19,5 @@ INVARIANTS
   NoLockCycle
 PROPERTIES
   ShutdownStops
+  CloseReturns
   ListenerCloseReturns
